@@ -29,6 +29,12 @@ def nd_int(width):
     return f
 
 
+def nd_i32(it, a, ty, callee):
+    if it.concrete is not None:
+        return Int(_next_concrete(it), 32, True)
+    return Int(it.sym(_name(it, a[1]), 32), 32, True)
+
+
 def nd_bool(it, a, ty, callee):
     if it.concrete is not None:
         return _next_concrete(it) & 1 == 1
@@ -107,6 +113,7 @@ def install(it):
     A(r'(?:\w+::)*verif_rt::Nondet::usize', nd_int(64))
     A(r'(?:\w+::)*verif_rt::Nondet::u16', nd_int(16))
     A(r'(?:\w+::)*verif_rt::Nondet::u8', nd_int(8))
+    A(r'(?:\w+::)*verif_rt::Nondet::i32', nd_i32)
     A(r'(?:\w+::)*verif_rt::Nondet::bool', nd_bool)
     A(r'(?:\w+::)*verif_rt::Nondet::choose', nd_choose)
     A(r'(?:\w+::)*verif_rt::Nondet::multiaddr', nd_multiaddr)
